@@ -55,7 +55,7 @@ def _explore_one(job):
 def explore_jobs(tier):
     def mc(n, me):
         return ("MC_Centrality", {"Kind": "hg", "Node": set(range(1, n + 1)), "ZMin": 1, "ZMax": n, "MaxEdges": me}, MC_INV)
-    return [mc(3, 4), mc(4, 2)] if tier == "quick" else [mc(3, 7), mc(4, 4)]
+    return [mc(3, 7), mc(4, 3)] if tier == "quick" else [mc(3, 7), mc(4, 5), mc(5, 2)]
 
 
 # ---------------------------------------------------------------------------
@@ -193,7 +193,7 @@ def judge_static(log, val):
         else:
             for n in nodes:
                 if not abs(got[n] - exp[ix[n]]) <= 1e-8 * max(1.0, abs(exp[ix[n]])):
-                    bad["subhypergraph_centrality_is_log_expm_diagonal"] = "node %d: returned %r, log(expm(Adj))_ii = %r" % (n, got[n], exp[ix[n]])
+                    bad["subhypergraph_centrality_is_log_expm_diagonal"] = "node %d: returned %r, log(expm(Adj))_ii = %r" % (n, got[n], float(exp[ix[n]]))
                     break
     return bad, W, nodes
 
@@ -329,7 +329,7 @@ def rand_uniform_connected(rng, n, k):
 
 
 def fn_of(clause):
-    for suffix in ("_returns", "_is_line_graph_value", "_is_bipartite_value", "_is_mean_over_snapshots",
+    for suffix in ("_one_value_per_hyperedge", "_returns", "_is_line_graph_value", "_is_bipartite_value", "_is_mean_over_snapshots",
                    "_one_value_per_node", "_is_log_expm_diagonal", "_positive", "_normalised", "_eigen_equation",
                    "_independent_of_start", "_carried_by_relabelling"):
         if clause.endswith(suffix):
@@ -350,11 +350,11 @@ def run(tier, seed):
         group = 0
         e3 = [e for z in (1, 2, 3) for e in itertools.combinations((1, 2, 3), z)]
         masks = list(range(1 << len(e3)))
-        for mask in (rng.sample(masks, 24) if quick else masks):
+        for mask in (rng.sample(masks, 40) if quick else masks):
             es = [e3[j] for j in range(len(e3)) if mask >> j & 1]
             plans.append((3, es, fams[group % 5], (), group))
             group += 1
-        for i in range(60 if quick else 900):
+        for i in range(200 if quick else 1200):
             n = rng.choice([4, 5, 5, 6, 6, 7])
             es = rand_edges(rng, n, min(7, 11 - n), 5)
             # the same abstract hypergraph under two label maps: a relabelling event
@@ -364,7 +364,7 @@ def run(tier, seed):
             group += 1
         # connected 3- and 4-uniform hypergraphs labelled 0..N-1, and a relabelled twin (a permutation of 0..N-1)
         nstarts = 4 if quick else 12
-        for i in range(16 if quick else 160):
+        for i in range(60 if quick else 300):
             k = 3 if i % 2 == 0 else 4
             n = rng.choice([4, 5, 6, 7] if k == 3 else [5, 6, 7])
             es = rand_uniform_connected(rng, n, k)
@@ -394,7 +394,7 @@ def run(tier, seed):
         per_group = {}
         nrej = 0
         for i, (log, val) in enumerate(zip(logs, v["values"])):
-            failed = {f: "decided by TLC on the key lists" for f in tl.get(i, [])}
+            failed = keys_named(tl.get(i, []), cases[i], val["edges"], [val["nodes"]])
             bad, W, nodes = judge_static(log, val)
             failed.update(bad)
             eig = {}
@@ -438,7 +438,7 @@ def run(tier, seed):
         # ---- temporal hypergraphs: averaged versions ------------------------------------------------
         tplans = []
         tf = ("ident", "sparse", "str", "strE", "zero")
-        for i in range(50 if quick else 700):
+        for i in range(200 if quick else 1000):
             n = rng.choice([3, 4, 4, 5, 5, 6])
             times = rng.sample([0, 1, 2, 3, 5, 9], rng.randint(1, 3))
             te = set()
@@ -462,7 +462,7 @@ def run(tier, seed):
         tv = O.run_oracle("Oracle_C20", tcases, {"Kind": "temp"}, procs=8)
         ttl = dict(tv["rejects"])
         for i, (log, val) in enumerate(zip(tlogs, tv["values"])):
-            failed = {f: "decided by TLC on the key lists" for f in ttl.get(i, [])}
+            failed = keys_named(ttl.get(i, []), tcases[i], val["alive"], [val["touched"], val["nodes"]])
             failed.update(judge_temporal(log, val))
             if failed:
                 nrej += 1
@@ -479,7 +479,7 @@ def run(tier, seed):
     if cases:
         res.sample({"case": descr[-1], "CEC/HEC": [{k: r[k] for k in ("fn", "seed", "values", "not_converged") if k in r} for r in logs[-1].get("eig", [])][:2]})
     if tcases:
-        res.sample({"case": tdescr[-1], "spec_averaged_closeness_s1": tv["values"][-1]["by_s"][0]["close"], "returned": tlogs[-1]["edge"][:2],
+        res.sample({"case": tdescr[-1], "spec_averaged_closeness_s1": tv["values"][-1]["by_s"][0]["close"], "returned": plain(tlogs[-1]["edge"][:2]),
                     "errors": tlogs[-1]["errors"]})
     res.assume(
         "betweenness / closeness values are emitted by TLC as exact rationals of the specification's own line graph and bipartite "
@@ -495,6 +495,25 @@ def run(tier, seed):
     return res.finish()
 
 
+def keys_named(tlc_failed, case, edges, node_sets):
+    """TLC rejected a key list (one value per hyperedge / node): name the function(s) concerned for the
+    signature and the message (the verdict is TLC's)"""
+    out = {}
+    es = sorted(sorted(e) for e in edges)
+    for f in tlc_failed:
+        rows = case.get("ekeys", []) if f == "one_value_per_hyperedge" else case.get("nkeys", [])
+        for r in rows:
+            if f == "one_value_per_hyperedge":
+                ok = sorted(sorted(k) for k in r["keys"]) == es
+            else:
+                ok = any(sorted(r["keys"]) == sorted(ns) for ns in node_sets)
+            if not ok:
+                out["%s_%s" % (r["fn"], f)] = "keys (spec node ids) %s; decided by TLC" % r["keys"]
+        if not any(k.endswith(f) for k in out):
+            out[f] = "decided by TLC on the key lists"
+    return out
+
+
 def report(res, d, failed, log):
     fns = sorted({fn_of(f) for f in failed})
     labels = d["labels"]
@@ -504,5 +523,8 @@ def report(res, d, failed, log):
                "%s on %s" % ("; ".join("%s [%s]" % (k, x) for k, x in sorted(failed.items())),
                              {k: x for k, x in d.items() if k not in ("group", "eigen_seeds")}),
                {"case": d, "failed": failed, "errors": log.get("errors"),
-                "returned": [{k: (x if k != "values" else {str(a): b_ for a, b_ in x.items()}) for k, x in r.items()}
-                             for r in log.get("edge", []) + log.get("node", [])]})
+                "returned": plain(log.get("edge", []) + log.get("node", []))})
+
+
+def plain(rows):
+    return [{k: (x if k != "values" else {str(a): b_ for a, b_ in x.items()}) for k, x in r.items()} for r in rows]
